@@ -109,12 +109,16 @@ SPECS = {
     # ... a disjunction object whose FIRST side (over a third, never selected variable) is false everywhere: every row
     # comes from its second side, under entity(y) and under set_of([y, w])
     "ce_y": "special", "ce_yw": "special",
+    # pool J: variables whose DOMAIN is a sub-query: two variables over one sub-query object; a sub-query with user code
+    # in it (a fault while the domain is being read); the(...) with no / with two solutions as the domain (the evaluation
+    # raises - every time)
+    "ds_a": "special", "ds_b": "special", "ds_pred": "special", "ds_none": "special", "ds_two": "special",
     "rule_late": "special",
     "iter": "special",
     "rule": "special",
     "rule_ref": "special",
 }
-USER_CODE = {"pred": "p_eq", "pcls": "PEq", "meth": "is_p", "indep_pred": "p_eq", "fl_pred": "p_eq"}
+USER_CODE = {"ds_pred": "p_eq", "pred": "p_eq", "pcls": "PEq", "meth": "is_p", "indep_pred": "p_eq", "fl_pred": "p_eq"}
 POOLS = {
     "A": ("join", "or_same", "union", "negand", "xonly", "indep"),
     "B": ("pred", "pcls", "meth", "and_unions", "indep_pred"),
@@ -125,6 +129,7 @@ POOLS = {
     "G": ("sq_part", "sq_nested", "cc_alone", "cc_or", "cc_and"),
     "I": ("cd_x", "cd_xy", "sd_x", "sd_xz", "ce_y", "ce_yw"),
     "H": ("cat_all", "cat_in", "cat_has", "cat_flat"),
+    "J": ("ds_a", "ds_b", "ds_pred", "ds_none", "ds_two"),
 }
 
 
@@ -195,6 +200,22 @@ class Pool:
                 self.q["ce_y"] = an(entity(ye, ce))
                 self.q["ce_yw"] = an(set_of([ye, we], ce))
             self.cd_sel = {"cd_xy": (xi_, yi_), "sd_xz": (x3, z3), "ce_yw": (ye, we)}
+        if pool == "J":
+            one, two = inst.v(1), inst.v(2)
+            with symbolic_mode():
+                xj, yj = let(W.Item, self.world["DA"]), let(W.Item, self.world["DB"])
+                sub = an(entity(yj, or_(xj.p == inst.v(9), xj.p == yj.q)))          # ONE sub-query object, two variables over it
+                za, zb = let(W.Item, domain=sub), let(W.Item, domain=sub)
+                self.q["ds_a"] = an(entity(za))
+                self.q["ds_b"] = an(entity(zb, zb.p >= one))
+                yp_ = let(W.Item, self.world["DA"])
+                zp = let(W.Item, domain=an(entity(yp_, W.p_eq(yp_, two) | (yp_.q >= one))))
+                self.q["ds_pred"] = an(entity(zp, zp.q >= one))
+                y0, y2 = let(W.Item, self.world["DA"]), let(W.Item, self.world["DA"])
+                z0 = let(W.Item, domain=the(entity(y0, y0.p == inst.v(9))))
+                self.q["ds_none"] = an(entity(z0, z0.q >= one))
+                z2 = let(W.Item, domain=the(entity(y2, y2.p == two)))
+                self.q["ds_two"] = an(entity(z2, z2.q >= one))
         if pool == "H":
             from entity_query_language import concatenate, flatten, in_, contains
             xl, el = let(W.Item, self.world["DL"]), let(W.Item, self.world["DE"])
@@ -412,7 +433,9 @@ def run_case(case, inst):
             outcomes.append(r if isinstance(r, tuple) and len(r) <= 2 and r[0] in ("took", "fault", "no-fault-reached") else "res")
             if op[0] == "F" and not same(op[1], r, fresh[op[1]]):
                 return ("step", i, op, r, fresh[op[1]]), trans, outcomes
-            if is_exc(r) and op[0] != "F":
+            if is_exc(r) and op[0] != "F" and not (is_exc(fresh[op[1]]) and r[:2] == fresh[op[1]][:2]):
+                # (a query whose fresh evaluation raises - the(...) without a solution as a domain - raises in a partial
+                # evaluation too: the same exception)
                 return ("step-exc", i, op, r, "no exception from the library"), trans, outcomes
         for name in POOLS[pool]:
             W.LOG.reset()
@@ -457,6 +480,14 @@ def describe(case, inst):
                 "cd_xy": "cd_xy: an(set_of([x, y], cd))",
                 "sd_x": "x3, y3, z3 = let(Item, DB) x 3; sub = an(entity(y3, or_(and_(y3.p == z3.p, y3.q != 1), y3.q == z3.q)))   # ONE sub-query object\nsd_x: an(entity(x3, sub.p == x3.p))",
                 "sd_xz": "sd_xz: an(set_of([x3, z3], sub.p == x3.p))"}[name])
+        elif name.startswith("ds_"):
+            lines.append({
+                "ds_a": "xj = let(Item, DA); yj = let(Item, DB); sub = an(entity(yj, or_(xj.p == 9, xj.p == yj.q)))   # ONE sub-query object\n"
+                        "za = let(Item, domain=sub); zb = let(Item, domain=sub)\nds_a: an(entity(za))",
+                "ds_b": "ds_b: an(entity(zb, zb.p >= 1))",
+                "ds_pred": "ds_pred: zp = let(Item, domain=an(entity(yp, p_eq(yp, 2) | (yp.q >= 1))))  [yp over DA]; an(entity(zp, zp.q >= 1))",
+                "ds_none": "ds_none: z0 = let(Item, domain=the(entity(y0, y0.p == 9)))  [no solution]; an(entity(z0, z0.q >= 1))",
+                "ds_two": "ds_two: z2 = let(Item, domain=the(entity(y2, y2.p == 2)))  [two solutions]; an(entity(z2, z2.q >= 1))"}[name])
         elif name == "rule_late":
             lines.append("rule_late: q = infer(entity(views3 := let(View), x.p >= 1)); with rule_mode(q):\\n    with refinement(x.q >= 2): "
                          "Add(views3, Made(a=x, c=1)); with alternative(x.q == 5): Add(views3, Made(a=x, c=3))\\n    "
